@@ -22,7 +22,7 @@ SPEC = {
              "dataflows were executed; distinct = distinct case."),
     "shards": {"quick": 16, "thorough": 16},
     "min_counts": {"quick": {"evaluations": 150, "kernel_runs": 4000, "leaf_bodies": 20000, "tiled_runs": 1000,
-                             "lf_runs": 1000, "uformat_runs": 300, "estimated_shape_runs": 300}},
+                             "lf_runs": 1000, "uformat_runs": 300, "estimated_shape_runs": 300, "div_tiled_runs": 500}},
     "assumptions": [
         "integer payloads, leaf default 0 (the idiom's zero-product filter is defined for 0)",
         "each index variable is tiled at most once (two-level tilings of one rank are not generated); no halos",
@@ -57,7 +57,14 @@ def generate(rng, tier, shard, nshards, mon):
         if len(vs) >= 2 and rng.random() < 0.3:
             a, b = rng.sample(vs, 2)
             tiles.append({a: 2, b: rng.choice([1, 2, 3])})
-        yield {"spec": spec, "tilings": tiles, "max_orders": 6 if tier == "quick" else 24, "oseed": rng.randrange(1 << 20)}
+        divs = [None] * len(tiles)
+        if not spec.get("noshape"):
+            # the convenience form: bring the rank to the top (a rotation of the operand's ranks), then `tensor / parts`
+            v = rng.choice(vs)
+            parts = rng.randint(1, 4)
+            tiles.append({v: (spec["ext"][v] + parts - 1) // parts})
+            divs.append({v: parts})
+        yield {"spec": spec, "tilings": tiles, "divs": divs, "max_orders": 6 if tier == "quick" else 24, "oseed": rng.randrange(1 << 20)}
 
 
 def run_case(case, mon):
@@ -66,8 +73,12 @@ def run_case(case, mon):
     r = random.Random(case["oseed"])
     flows = 0
     results = {}
-    for tiles in [{}] + case["tilings"]:
+    divs = [None] + (case.get("divs") or [None] * len(case["tilings"]))
+    for ti, tiles in enumerate([{}] + case["tilings"]):
         spec = dict(base, tiles=tiles)
+        spec.pop("div", None)
+        if divs[ti]:
+            spec["div"] = divs[ti]
         orders = list(kernels.all_orders(spec))
         if len(orders) > case["max_orders"]:
             orders = r.sample(orders, case["max_orders"])
@@ -75,7 +86,7 @@ def run_case(case, mon):
             for style in ("two-finger", "leader-follower"):
                 for nested in ((True, False) if (len(base["ops"]) == 3 and style == "two-finger") else (True,)):
                     s = dict(spec, order=order, style=style)
-                    tag = f"{'tiled' if tiles else 'untiled'}:{style}" + ("" if nested else ":flat-intersection")
+                    tag = f"{('tiled-by-div' if divs[ti] else 'tiled') if tiles else 'untiled'}:{style}" + ("" if nested else ":flat-intersection")
                     try:
                         tensors, Z, lvars, zl = kernels.build(s)
                         nb = kernels.execute(s, tensors, Z, lvars, zl, nested_and=nested)
@@ -91,6 +102,8 @@ def run_case(case, mon):
                     mon.count("leaf_bodies", nb)
                     if tiles:
                         mon.count("tiled_runs")
+                    if divs[ti]:
+                        mon.count("div_tiled_runs")
                     if base.get("fmts"):
                         mon.count("uformat_runs")
                     if base.get("noshape"):
